@@ -562,3 +562,20 @@ def collect_caps(rng, position, negative=False, exact=True):
         return rng.choice(opts)
     (c0, k0), (c1, k1) = one(0), one(1)
     return c0, c1, f"{k0}/{k1}"
+
+
+def offer(rng, balance):
+    """an offered amount for an add-liquidity call: mostly a fraction of the wallet balance; sometimes exactly 0 (an explicit zero is an amount,
+    not 'not given'), the whole balance, or a hair above it (a running total or a float round trip: within the wallet's 1e-5 'use it all'
+    tolerance, which must treat both tokens alike) and a little beyond that tolerance"""
+    from decimal import Decimal
+    k = rng.random()
+    if k < 0.72:
+        return balance * Decimal(rng.choice(("0.1", "0.3", "0.6")))
+    if k < 0.80:
+        return Decimal(0)
+    if k < 0.87:
+        return balance
+    if k < 0.95:
+        return balance * (1 + Decimal(rng.choice(("1e-8", "3e-7", "9e-6"))))
+    return balance * (1 + Decimal("3e-5"))
